@@ -60,26 +60,21 @@ Proof.
   destruct (H wcfg sched_epoch_bump H1 H2 H3 H4) as [_ Hs]. specialize (Hs 3 H7). rewrite H6 in Hs. discriminate.
 Qed.
 
-(* (v) one retriable answer and a fresh message during the retry: message 3 reported successful, not in the log;
-   no connection failure, no error event, the epoch never moves *)
-Theorem refuted_backlog :
+(* (v), repaired in /repo 271dd24 (fixes/c05_flush_stamp.patch): flushRetryBuffers now stamps a parked first-pass
+   message.  On the schedule that made the pinned tree report message 3 successful without writing it (one
+   NotLeaderForPartition answer, message 3 parked during the retry) message 3 now travels as (epoch 0, sequence 2),
+   is appended at offset 2, and the received history is stamp-consistent. *)
+Theorem backlog_repaired :
   let y := yrun wcfg2 sched_backlog in
   idem_cfg wcfg2 = true /\ forallb sane_choice sched_backlog = true /\ forallb conn_free_choice sched_backlog = true /\
-  no_error_events (y_st y) = true /\ g_epoch (y_st y) = 0 /\
-  (forall i, (subm_count i (y_st y) <= 1)%nat) /\ g_panic (y_st y) = None /\
-  appended 3 y = 0%nat /\ In 3 (success_ids (y_st y)) /\ g_inflight (y_st y) = 0.
+  no_error_events (y_st y) = true /\ g_panic (y_st y) = None /\ g_inflight (y_st y) = 0 /\
+  consistent (hist_claims (y_hist y)) /\
+  appended 1 y = 1%nat /\ appended 2 y = 1%nat /\ appended 3 y = 1%nat /\ success_ids (y_st y) = [1; 2; 3] /\
+  map rl_batch (y_hist y) = [mkBatch (0, 0) 0 0 [1]; mkBatch (0, 0) 0 0 [1]; mkBatch (0, 0) 0 1 [2]; mkBatch (0, 0) 0 2 [3]].
 Proof.
   cbv zeta. split; [reflexivity|]. split; [reflexivity|]. split; [reflexivity|]. split; [vm_compute; reflexivity|].
-  split; [vm_compute; reflexivity|]. split.
-  - intros i. unfold subm_count. replace (map m_id (g_submitted (y_st (yrun wcfg2 sched_backlog)))) with [1; 2; 3] by (vm_compute; reflexivity).
-    unfold count_id. cbn [filter]. destruct (Z.eqb_spec i 1) as [->|]; [cbn; lia|]. destruct (Z.eqb_spec i 2) as [->|]; [cbn; lia|]. destruct (Z.eqb_spec i 3) as [->|]; cbn; lia.
-  - vm_compute. repeat split; auto.
-Qed.
-
-Theorem not_no_duplicate_quiet : ~ no_duplicate_quiet.
-Proof.
-  intros H. destruct refuted_backlog as [H1 [H2 [H3 [H4 [_ [H6 [_ [H8 [H9 _]]]]]]]]].
-  destruct (H wcfg2 sched_backlog H1 H2 H3 H4 H6) as [_ Hs]. specialize (Hs 3 H9). rewrite H8 in Hs. discriminate.
+  split; [vm_compute; reflexivity|]. split; [vm_compute; reflexivity|].
+  split; [apply consistentb_sound; vm_compute; reflexivity|]. vm_compute. repeat split; reflexivity.
 Qed.
 
 Theorem not_sequence_contiguous_full : ~ sequence_contiguous_full.
